@@ -54,6 +54,11 @@ class Check:
     assumptions = ()
     rule = ""
     explanation = ""
+    # end-to-end composition relations of harness/crosscheck.py wired into this check:
+    # tuple of (crosscheck function name, set of relation names that belong to this property)
+    cross = ()
+    cross_cases_quick = 10
+    cross_cases_thorough = 150
 
     # ---- to be provided by subclasses -------------------------------------------
     def generate(self, rng, tier):
@@ -284,10 +289,41 @@ def run_check(check, tier, seed, replay=None, max_cases=None):
             if rest:
                 violations.append((c, rest, o, mo))
 
+    cross_stats = {}
+
+    def process_cross(cases):
+        """composition relations (real mitigator chained with real fairlearn.metrics) checked against the bounds
+        proved in Properties/CxxX.lean; a counterexample is a property-level failing input"""
+        from . import crosscheck
+        from collections import Counter
+        cst = Counter()
+        for c in cases:
+            name = c["_cross"]
+            wanted = dict(check.cross).get(name)
+            fn = getattr(crosscheck, "check_" + name)
+            stats["evaluations"] += 1
+            try:
+                found = fn(c, cst)
+            except Exception as e:  # noqa: BLE001
+                found = [(f"X1.{name}-raised", f"{type(e).__name__}: {e}")]
+                wanted = None
+            ps = [Problem("property", msg, rel) for rel, msg in found if wanted is None or rel in wanted]
+            stats["distinct"].add(hashlib.sha1(json.dumps(c, sort_keys=True).encode()).digest()[:8])
+            if ps:
+                violations.append((c, ps, {"cross": name}, None))
+            else:
+                stats["corr_ok"] += 1
+        for k, v in cst.items():
+            cross_stats[k] = cross_stats.get(k, 0) + v
+            stats["tags"]["cross:" + k] = stats["tags"].get("cross:" + k, 0) + v
+
     if replay:
         with open(replay) as f:
             rp = json.load(f)
-        process_batch([rp["case"]], "replay")
+        if isinstance(rp.get("case"), dict) and "_cross" in rp["case"]:
+            process_cross([rp["case"]])
+        else:
+            process_batch([rp["case"]], "replay")
     else:
         process_batch(check.corpus_cases(), "corpus")
         if tier == "thorough":
@@ -313,6 +349,16 @@ def run_check(check, tier, seed, replay=None, max_cases=None):
                 break
             process_batch(buf, "generated")
             done += len(buf)
+        if check.cross and len(violations) < 5:
+            from . import crosscheck
+            crng = random.Random(seed * 7919 + 13)
+            ncross = check.cross_cases_quick if tier == "quick" else check.cross_cases_thorough
+            t_cross = time.time() + (45 if tier == "quick" else 600)
+            for _ in range(ncross):
+                if time.time() > t_cross:
+                    break
+                base = crosscheck.gen_case(crng)
+                process_cross([dict(base, _cross=name) for name, _ in check.cross])
 
     # 4. verdict ------------------------------------------------------------------------
     rc = 0
@@ -330,8 +376,9 @@ def run_check(check, tier, seed, replay=None, max_cases=None):
         found = any(p.kind == "property" for p in probs)
         small, sprobs, so, smo = case, probs, o, mo
         try:
-            small, sprobs, so, smo, found = search_failing_input(check, case, probs, o, mo, ok_drv, known_entries,
-                                                                 time.time() + 120)
+            if not (isinstance(case, dict) and "_cross" in case):
+                small, sprobs, so, smo, found = search_failing_input(check, case, probs, o, mo, ok_drv,
+                                                                     known_entries, time.time() + 120)
         except Exception as e:  # noqa: BLE001
             log(f"[{pid}] shrink failed: {e!r}")
         payload = {"property": pid, "case": _jsonable(small), "impl": _jsonable(so), "model": smo,
